@@ -35,12 +35,17 @@ static double g_limit = 1e300;
 static void on_phase(int tag, const std::vector<cell_ptr>* lst) {
     if (!g_cnt || tag < 0 || tag > 10) return; g_cnt->phases[tag]++;
     if (tag == 8 && tis::blown_up(*lst, g_limit)) throw tis::unstable_run();
-    if (tag == 9) g_cnt->last_count = lst->size();
-    if (tag == 10) { if (lst->size() < g_cnt->last_count) g_cnt->removals += (long)(g_cnt->last_count - lst->size()); g_cnt->max_cells = std::max<long>(g_cnt->max_cells, (long)lst->size()); g_cnt->min_cells = std::min<long>(g_cnt->min_cells, (long)lst->size()); }
+#if CONTACT_MODEL_INDEX == 1
+    if (tag == 7 && getenv("VH_TRACE")) { std::string o; for (size_t i = 0; i < lst->size(); i++) { long n = 0; unsigned mx = 0; for (const node& nd : cell_tester::nodes(*(*lst)[i])) if (nd.is_used() && cell_tester::coupled(nd).has_value()) { n++; mx = std::max(mx, cell_tester::coupled(nd).value().second); } o += " c" + std::to_string(i) + ":" + std::to_string(n) + "/" + std::to_string(mx) + (( *lst)[i]->is_below_min_vol() ? "*" : ""); } FILE* tf = fopen("/tmp/vh_trace.log", "a"); if (tf) { fprintf(tf, "it %ld%s\n", g_cnt->phases[7], o.c_str()); fclose(tf); } }
+#endif
+    // a cell leaves the population wherever the list gets shorter between two phase boundaries of one iteration (divisions only lengthen it)
+    if (tag >= 3) { if (lst->size() < g_cnt->last_count) g_cnt->removals += (long)(g_cnt->last_count - lst->size()); }
+    if (tag >= 2) g_cnt->last_count = lst->size();
+    if (tag == 10) { g_cnt->max_cells = std::max<long>(g_cnt->max_cells, (long)lst->size()); g_cnt->min_cells = std::min<long>(g_cnt->min_cells, (long)lst->size()); }
 }
 
 static tis::Scenario scenario_of(const Args& a, long i, Rng& g) {
-    int what = a.geti("what", -1); if (what < 0) what = (int)(i % 9);   // 0-6 named families, 7 polygonal cubes (initial triangulation), 8 cubes with a degenerate face in contact
+    int what = a.geti("what", -1); if (what < 0) what = (int)(i % 10);   // 0-6 named families, 7 polygonal cubes (initial triangulation), 8 cubes with a degenerate face in contact
     int iters = (int)a.geti("iterations", 0); if (iters <= 0) iters = g.range((int)a.geti("min_iterations", 40), (int)a.geti("max_iterations", 120));
     return tis::make_scenario(g, what, iters, a.geti("allow_triangulation", 1) != 0);
 }
